@@ -679,6 +679,11 @@ def _generic_from(m, args, ci):
         return m.call_body(b, args)
     q = qualified(ci.raw)
     a, kind, bb = type_head(q[0]), q[1], (type_head(q[2][0]) if q[2] else '')
+    if kind == 'Into' and bb:
+        # blanket impl<T, U: From<T>> Into<U> for T: a crate-local From impl on the target type
+        b = m.prog.keys.get('<%s as From>::from' % last_seg(bb))
+        if b is not None:
+            return m.call_body(b, args)
     src, dst = (bb, a) if kind == 'From' else (a, bb)
     return convert(m, args[0], src, dst, ci)
 
